@@ -982,6 +982,12 @@ def _tensorclass(cls: T, *, frozen, shadow: bool) -> T:
     for attr in TensorDict.__dict__.keys():
         func = getattr(TensorDict, attr)
         if inspect.ismethod(func) and attr not in cls.__dict__:
+            inherited = getattr(cls, attr, None)
+            if inherited is not None and not getattr(
+                inherited, "_wraps_td_classmethod", False
+            ):
+                # defined on a (decorated) base class by the tensorclass machinery or by the user: keep it
+                continue
             tdcls = func.__self__
             if issubclass(tdcls, TensorDictBase):  # detects classmethods
                 setattr(cls, attr, _wrap_classmethod(tdcls, cls, func))
@@ -1804,6 +1810,7 @@ def _wrap_classmethod(td_cls, cls, func):
             return cls._from_tensordict(res)
         return res
 
+    wrapped_func._wraps_td_classmethod = True
     return wrapped_func
 
 
